@@ -395,7 +395,7 @@ def mask(rng, shape, kind=None):
         m = np.zeros(shape, dtype=bool)
     elif kind == "block":
         m = np.zeros(shape, dtype=bool)
-        lo = [int(rng.integers(0, s // 2)) for s in shape]
+        lo = [int(rng.integers(0, max(1, s // 2))) for s in shape]
         hi = [int(rng.integers(l + 1, s + 1)) for l, s in zip(lo, shape)]
         m[tuple(slice(l, h) for l, h in zip(lo, hi))] = True
     else:
